@@ -373,7 +373,7 @@ func ruleHeaderPerBlock(c *Ctx, p *core.Program, rule string) {
 
 // ruleExternalPresence (C02.external-presence): a declared external table is sent whatever its row count.
 func ruleExternalPresence(c *Ctx, p *core.Program, rule string) {
-	c.R.Rule(rule, "Client.sendQuery sends the external-data block whenever Query.ExternalData has columns: under len(q.ExternalData) > 0 (folded through the CFG) no success exit is reachable without the encodeBlock call that takes q.ExternalData - a further condition on the contents (zero rows) drops the table's name and schema, which the statement refers to")
+	c.R.Rule(rule, "Client.sendQuery sends the external-data block whenever Query.ExternalData has columns: under len(q.ExternalData) > 0 (folded through the CFG) no success exit is reachable without the call that is handed q.ExternalData (encodeBlock, or a helper in its place - which path it encodes on is C05.block-path) - a further condition on the contents (zero rows) drops the table's name and schema, which the statement refers to")
 	cfg := p.Cfg.Name
 	sq := p.Method(core.PkgCh, "Client", "sendQuery")
 	if !c.must(p, "(*ch.Client).sendQuery", sq != nil) {
@@ -381,7 +381,10 @@ func ruleExternalPresence(c *Ctx, p *core.Program, rule string) {
 	}
 	var site ssa.Instruction
 	for _, fn := range []*ssa.Function{sq} {
-		for _, call := range core.FindCalls(fn, isClientMethod("encodeBlock")) {
+		for _, call := range core.Calls(fn) {
+			if _, isBuiltin := call.Common().Value.(*ssa.Builtin); isBuiltin {
+				continue
+			}
 			for _, a := range call.Common().Args {
 				if loadOfField(a, "ExternalData") {
 					site = call.(ssa.Instruction)
@@ -2169,6 +2172,68 @@ func ruleStringIndexGuard(c *Ctx, p *core.Program, rule string) {
 				}
 				k, isConst := intConstOf(lk.Index)
 				if !isConst {
+					// look-ahead s[y+d] with a constant d > 0: behind y+d' < len(s) (d' >= d) or y < len(s)-d'
+					ad, ok := stripConv(lk.Index).(*ssa.BinOp)
+					if !ok || ad.Op != token.ADD {
+						continue
+					}
+					d, okd := intConstOf(ad.Y)
+					if !okd || d <= 0 {
+						continue
+					}
+					n++
+					key := sprintf("%s/lookahead#%d", core.FuncName(fn), n)
+					isLenS := func(v ssa.Value) bool {
+						cl, ok := stripConv(v).(*ssa.Call)
+						if !ok {
+							return false
+						}
+						bi, ok := cl.Call.Value.(*ssa.Builtin)
+						return ok && bi.Name() == "len" && cl.Call.Args[0] == lk.X
+					}
+					ahead := func(v ssa.Value) (int64, bool) { // v == y + d'
+						b2, ok := stripConv(v).(*ssa.BinOp)
+						if !ok || b2.Op != token.ADD || b2.X != ad.X {
+							return 0, false
+						}
+						return intConstOf(b2.Y)
+					}
+					lenMinus := func(v ssa.Value) (int64, bool) { // v == len(s) - d'
+						b2, ok := stripConv(v).(*ssa.BinOp)
+						if !ok || b2.Op != token.SUB || !isLenS(b2.X) {
+							return 0, false
+						}
+						return intConstOf(b2.Y)
+					}
+					edges := core.CondEdges(fn, true, func(cond ssa.Value) (bool, bool) {
+						bo, ok := cond.(*ssa.BinOp)
+						if !ok {
+							return false, false
+						}
+						if d2, ok := ahead(bo.X); ok && isLenS(bo.Y) && d2 >= d {
+							switch bo.Op {
+							case token.LSS:
+								return true, true
+							case token.GEQ:
+								return false, true
+							}
+						}
+						if d2, ok := lenMinus(bo.Y); ok && bo.X == ad.X && d2 >= d {
+							switch bo.Op {
+							case token.LSS:
+								return true, true
+							case token.GEQ:
+								return false, true
+							}
+						}
+						return false, false
+					})
+					if len(edges) > 0 && core.OnlyViaEdges(fn, lk, edges) {
+						c.R.Ok(rule, key, cfg, p.Pos(lk.Pos()), "look-ahead behind a length test")
+					} else {
+						bad++
+						c.R.Bad(rule, key, cfg, p.Pos(lk.Pos()), sprintf("the scanner looks %d byte(s) ahead without having established that the string is that long: a type string cut off after a quote panics", d))
+					}
 					continue
 				}
 				n++
@@ -2249,4 +2314,800 @@ func ruleStringIndexGuard(c *Ctx, p *core.Program, rule string) {
 	if bad == 0 {
 		c.R.Ok(rule, "proto/Infer", cfg, "", sprintf("%d constant string indexings on Infer paths, all guarded", n))
 	}
+}
+
+// Rules added in seeding round 14.
+
+// ruleDecodedValueStored (C17.decoded-stored): what a message decoder reads for a field reaches the field.
+func ruleDecodedValueStored(c *Ctx, p *core.Program, rule string) {
+	c.R.Rule(rule, "in the decoder of every protocol message, a value read from the wire that is stored into a field of the message on some path is stored on every path from the read to a success exit (failing edges of error tests cut): a store made conditional on another decoded field (`if p.AppliedLimit { p.RowsBeforeLimit = v }`) consumes the bytes but drops the value, so decode(encode(x)) differs from x for the combinations the condition excludes")
+	cfg := p.Cfg.Name
+	n := 0
+	for _, mp := range messagePairs(p) {
+		dec := mp.dec
+		if dec == nil || dec.Blocks == nil || len(dec.Params) == 0 {
+			continue
+		}
+		recv := dec.Params[0]
+		for _, b := range dec.Blocks {
+			for _, in := range b.Instrs {
+				st, ok := in.(*ssa.Store)
+				if !ok {
+					continue
+				}
+				fa, ok := st.Addr.(*ssa.FieldAddr)
+				if !ok || fa.X != ssa.Value(recv) {
+					continue
+				}
+				// the wire read the stored value comes from (directly, converted)
+				var read ssa.Instruction
+				v := stripConv(st.Val)
+				if ex, ok := v.(*ssa.Extract); ok {
+					v = ex.Tuple
+				}
+				if cl, ok := v.(*ssa.Call); ok && isWireRead(cl) {
+					read = cl
+				}
+				if read == nil {
+					continue
+				}
+				n++
+				key := sprintf("message/%s/%s", mp.name, fieldNameOnly(fa.X.Type(), fa.Field))
+				w := core.ReachAvoiding(core.PointOf(read), func(x ssa.Instruction) bool {
+					r, ok := x.(*ssa.Return)
+					return ok && defaultSuccess(dec, r)
+				}, func(x ssa.Instruction) bool {
+					s2, ok := x.(*ssa.Store)
+					if !ok {
+						return false
+					}
+					f2, ok := s2.Addr.(*ssa.FieldAddr)
+					return ok && f2.X == ssa.Value(recv) && f2.Field == fa.Field
+				}, nilErrEdge)
+				if len(w) > 0 {
+					c.R.Bad(rule, key, cfg, p.Pos(st.Pos()), "the value read for this field can be dropped on a success path: the store depends on something else that was decoded", p.TrailString(w[0])...)
+				} else {
+					c.R.Ok(rule, key, cfg, p.Pos(st.Pos()), "stored on every success path after the read")
+				}
+			}
+		}
+	}
+	c.R.Count("wire reads stored into message fields", n)
+	c.R.Floor(rule, cfg, n, 20)
+}
+
+// ruleNoPrepareInDecode (C18.no-prepare): binding a block to targets never runs the encode-side preparation.
+func ruleNoPrepareInDecode(c *Ctx, p *core.Program, rule string) {
+	c.R.Rule(rule, "the block decoders of package proto (Results.DecodeResult, Results.decodeAuto, autoResults.DecodeResult, ColInfoInput.DecodeResult and the package helpers they call) never call Prepare on a target: Prepare is the encode-side step that maps the values a column holds through its current definition - run on a target that still holds the previous block's rows, right after Infer replaced the definition, it fails a compatible block with `unknown enum value`")
+	cfg := p.Cfg.Name
+	n, bad := 0, 0
+	for _, fn := range p.Funcs() {
+		if pkgOf(fn) == nil || pkgOf(fn).Path() != core.PkgProto || fn.Blocks == nil || (fn.Name() != "DecodeResult" && fn.Name() != "decodeAuto") {
+			continue
+		}
+		for g := range core.StaticReach(fn, 2) {
+			if g.Blocks == nil || pkgOf(g) == nil || pkgOf(g).Path() != core.PkgProto {
+				continue
+			}
+			if g != fn && (g.Signature.Recv() != nil && g.Name() != "DecodeResult" && g.Name() != "decodeAuto") {
+				continue // methods of columns are not the decoder's own code
+			}
+			n++
+			for _, call := range core.Calls(g) {
+				cc := call.Common()
+				if cc.IsInvoke() && cc.Method.Name() == "Prepare" {
+					bad++
+					c.R.Bad(rule, core.CallKey(g, call), cfg, p.Pos(call.Pos()), "a result decoder prepares its target: the values it still holds are mapped through the definition it has just adopted")
+				}
+			}
+		}
+	}
+	c.R.Floor(rule, cfg, n, 3)
+	if bad == 0 {
+		c.R.Ok(rule, "proto/result-decoders", cfg, "", sprintf("%d decoder functions, none calls Prepare", n))
+	}
+}
+
+// ruleArrayCtorElement (C01.ctor-elem): NewArr<T> builds an array of Col<T>.
+func ruleArrayCtorElement(c *Ctx, p *core.Program, rule string) {
+	c.R.Rule(rule, "every constructor NewArr<T> of package proto builds its array over a freshly allocated Col<T> - the element column named like the constructor: the time columns all satisfy ColumnOf[time.Time], so NewArrDate32 over new(ColDate) compiles, announces Array(Date) and stores 16-bit days")
+	cfg := p.Cfg.Name
+	n := 0
+	for _, fn := range p.Funcs() {
+		if pkgOf(fn) == nil || pkgOf(fn).Path() != core.PkgProto || fn.Blocks == nil || fn.Signature.Recv() != nil || !strings.HasPrefix(fn.Name(), "NewArr") || fn.Name() == "NewArray" || len(fn.Params) != 0 {
+			continue
+		}
+		want := "Col" + strings.TrimPrefix(fn.Name(), "NewArr")
+		var got []string
+		for _, b := range fn.Blocks {
+			for _, in := range b.Instrs {
+				al, ok := in.(*ssa.Alloc)
+				if !ok || !al.Heap {
+					continue
+				}
+				if nn := core.NamedOf(derefType(al.Type())); nn != nil && strings.HasPrefix(nn.Obj().Name(), "Col") && !strings.HasPrefix(nn.Obj().Name(), "ColArr") {
+					got = append(got, nn.Obj().Name())
+				}
+			}
+		}
+		if len(got) == 0 {
+			continue
+		}
+		n++
+		key := "ctor/" + fn.Name()
+		ok := true
+		for _, g := range got {
+			if g != want {
+				ok = false
+			}
+		}
+		if ok {
+			c.R.Ok(rule, key, cfg, p.Pos(fn.Pos()), "array over "+want)
+		} else {
+			c.R.Bad(rule, key, cfg, p.Pos(fn.Pos()), sprintf("%s allocates %s, expected %s: the array announces and encodes another element type", fn.Name(), strings.Join(got, ", "), want))
+		}
+	}
+	c.R.Count("NewArr constructors", n)
+	c.R.Floor(rule, cfg, n, 20)
+}
+
+// ruleReadTimeoutSource (C04.readtimeout-source): the idle timeout of a connection is what the options say.
+func ruleReadTimeoutSource(c *Ctx, p *core.Program, rule string) {
+	c.R.Rule(rule, "every store to Client.readTimeout in package ch takes Options.ReadTimeout: the field is never zeroed, saved and restored around a phase (a restore that sits behind an early return leaves the connection without a per-packet deadline for old revisions, and a silent server then parks the receive loop for ever)")
+	cfg := p.Cfg.Name
+	n := 0
+	for _, fn := range p.Funcs() {
+		if pkgOf(fn) == nil || pkgOf(fn).Path() != core.PkgCh || fn.Blocks == nil {
+			continue
+		}
+		for _, b := range fn.Blocks {
+			for _, in := range b.Instrs {
+				st, ok := in.(*ssa.Store)
+				if !ok {
+					continue
+				}
+				if f, ok := clientFieldAddrOf(st.Addr); !ok || f != "readTimeout" {
+					continue
+				}
+				n++
+				key := sprintf("%s/store-readTimeout#%d", core.FuncName(fn), n)
+				if o := core.FieldOrigin(st.Val, 0); o == "Options.ReadTimeout" {
+					c.R.Ok(rule, key, cfg, p.Pos(st.Pos()), "readTimeout <- Options.ReadTimeout")
+				} else {
+					c.R.Bad(rule, key, cfg, p.Pos(st.Pos()), "Client.readTimeout is assigned something other than Options.ReadTimeout (zeroed, or restored from a saved copy): a path that skips the restore leaves reads without a deadline")
+				}
+			}
+		}
+	}
+	c.R.Floor(rule, cfg, n, 1)
+}
+
+func clientFieldAddrOf(v ssa.Value) (string, bool) {
+	in, ok := v.(ssa.Instruction)
+	if !ok {
+		return "", false
+	}
+	return clientFieldAddr(in)
+}
+
+// ruleHandleSlabFresh (C11.handle-slab): every pooled connection has its own handles.
+func ruleHandleSlabFresh(c *Ctx, p *core.Program, rule string) {
+	c.R.Rule(rule, "the slab of Client handles of a pooled connection (the slice-of-Client field of connResource) is assigned only a slice made in the assigning function or a reslice of the field itself: a slab captured from outside the puddle constructor is shared by all connections, so the n-th handle of two connections is one object and the second Acquire redirects the first holder")
+	cfg := p.Cfg.Name
+	n := 0
+	for _, fn := range p.Funcs() {
+		if pkgOf(fn) == nil || pkgOf(fn).Path() != core.PkgPool || fn.Blocks == nil {
+			continue
+		}
+		for _, b := range fn.Blocks {
+			for _, in := range b.Instrs {
+				st, ok := in.(*ssa.Store)
+				if !ok {
+					continue
+				}
+				fa, ok := st.Addr.(*ssa.FieldAddr)
+				if !ok || !core.IsNamed(derefType(fa.X.Type()), core.PkgPool, "connResource") {
+					continue
+				}
+				sl, ok := fieldTypeOf(fa).Underlying().(*types.Slice)
+				if !ok || !core.IsNamed(sl.Elem(), core.PkgPool, "Client") {
+					continue
+				}
+				n++
+				key := sprintf("%s/store-handles#%d", core.FuncName(fn), n)
+				foreign := core.DependsOn(st.Val, func(v ssa.Value) bool {
+					switch v.(type) {
+					case *ssa.FreeVar, *ssa.Parameter, *ssa.Global:
+						// the receiver / resource itself is fine (reslice of its own field)
+						if prm, ok := v.(*ssa.Parameter); ok && core.IsNamed(derefType(prm.Type()), core.PkgPool, "connResource") {
+							return false
+						}
+						return true
+					}
+					return false
+				}, false)
+				if foreign {
+					c.R.Bad(rule, key, cfg, p.Pos(st.Pos()), "the handle slab comes from outside the function that builds the connection: connections share one backing array of handles")
+				} else {
+					c.R.Ok(rule, key, cfg, p.Pos(st.Pos()), "fresh or own slab")
+				}
+			}
+		}
+	}
+	c.R.Floor(rule, cfg, n, 2)
+}
+
+// ruleNewPoolCloses (C11.newpool-closes): a pool that fails to start closes what it opened.
+func ruleNewPoolCloses(c *Ctx, p *core.Program, rule string) {
+	c.R.Rule(rule, "in the function of package chpool that creates the puddle pool, every exit that returns an error after the pool exists passes a call of Pool.Close (or puddle's Close) in the function body - a clean-up moved into a deferred closure counts only when the closure's condition reads a cell that the failing return stores its error into (named results; a shadowed `err` never reaches the cell): connections opened during a failed warm-up otherwise stay open with no pool to close them")
+	cfg := p.Cfg.Name
+	n := 0
+	for _, fn := range p.Funcs() {
+		if pkgOf(fn) == nil || pkgOf(fn).Path() != core.PkgPool || fn.Blocks == nil {
+			continue
+		}
+		var mk ssa.CallInstruction
+		for _, call := range core.Calls(fn) {
+			if f := core.CalleeFunc(call); f != nil && f.Pkg() != nil && f.Pkg().Path() == pkgPuddle && f.Name() == "NewPool" {
+				mk = call
+			}
+		}
+		if mk == nil {
+			continue
+		}
+		n++
+		key := core.FuncName(fn)
+		ev := core.ErrValue(mk)
+		al := core.Aliases(fn, ev)
+		okEdge := func(b *ssa.BasicBlock, i int) bool {
+			if ifi, ok := b.Instrs[len(b.Instrs)-1].(*ssa.If); ok {
+				if ns, ok := core.NilTest(ifi, al); ok && ns != i {
+					return false // NewPool itself failed: nothing was opened
+				}
+			}
+			return true
+		}
+		isClose := func(in ssa.Instruction) bool {
+			return core.IsCallOf(in, func(f *types.Func) bool {
+				return core.IsMethod(f, core.PkgPool, "Pool", "Close") || (f.Pkg() != nil && f.Pkg().Path() == pkgPuddle && f.Name() == "Close")
+			})
+		}
+		// cells a deferred clean-up closure tests before closing
+		cells := map[ssa.Value]bool{}
+		for _, b := range fn.Blocks {
+			for _, in := range b.Instrs {
+				df, ok := in.(*ssa.Defer)
+				if !ok {
+					continue
+				}
+				mc, ok := df.Call.Value.(*ssa.MakeClosure)
+				if !ok {
+					continue
+				}
+				cl, _ := mc.Fn.(*ssa.Function)
+				if cl == nil || len(core.FindCalls(cl, func(f *types.Func) bool { return core.IsMethod(f, core.PkgPool, "Pool", "Close") })) == 0 {
+					continue
+				}
+				for i, fv := range cl.FreeVars {
+					if pt, ok := fv.Type().Underlying().(*types.Pointer); ok && types.Identical(pt.Elem(), types.Universe.Lookup("error").Type()) && i < len(mc.Bindings) {
+						cells[mc.Bindings[i]] = true
+					}
+				}
+			}
+		}
+		w := core.ReachAvoiding(core.PointOf(mk.(ssa.Instruction)), func(in ssa.Instruction) bool {
+			r, ok := in.(*ssa.Return)
+			if !ok || len(r.Results) == 0 {
+				return false
+			}
+			last := r.Results[len(r.Results)-1]
+			if core.IsNilConst(last) || !isErrorTyped(last) {
+				return false
+			}
+			// a failing return that hands its error to the cell the deferred clean-up tests is covered
+			for cell := range cells {
+				for _, x := range r.Block().Instrs {
+					if st, ok := x.(*ssa.Store); ok && st.Addr == cell && !core.IsNilConst(st.Val) {
+						return false
+					}
+				}
+			}
+			return true
+		}, isClose, okEdge)
+		if len(w) > 0 {
+			c.R.Bad(rule, key, cfg, p.Pos(w[0].At.Pos()), "the pool can fail to start after connections were opened without closing them: there is no pool left to close them later", p.TrailString(w[0])...)
+		} else {
+			c.R.Ok(rule, key, cfg, p.Pos(mk.Pos()), "every failing exit after the pool exists closes it")
+		}
+	}
+	c.R.Floor(rule, cfg, n, 1)
+}
+
+// ruleNoGlobalBuffers (C12.global-buffers): nothing is read into package-level memory.
+func ruleNoGlobalBuffers(c *Ctx, p *core.Program, rule string) {
+	c.R.Rule(rule, "no function of the library outside package initialisation hands a window of a package-level array or slice to something that fills it (Reader.ReadFull / Read, io.ReadFull, an io.Reader's Read, the destination of copy): every connection's receive goroutine would write the same memory - a scratch buffer belongs to the reader or the column")
+	cfg := p.Cfg.Name
+	n, bad := 0, 0
+	fromGlobal := func(v ssa.Value) bool {
+		return core.DependsOn(v, func(x ssa.Value) bool {
+			g, ok := x.(*ssa.Global)
+			if !ok || g.Pkg == nil || !strings.HasPrefix(g.Pkg.Pkg.Path(), core.PkgCh) {
+				return false
+			}
+			switch derefType(g.Type()).Underlying().(type) {
+			case *types.Array, *types.Slice:
+				return true
+			}
+			return false
+		}, false)
+	}
+	for _, fn := range p.Funcs() {
+		if pkgOf(fn) == nil || fn.Blocks == nil || fn.Name() == "init" || strings.HasPrefix(fn.Name(), "init#") {
+			continue
+		}
+		for _, call := range core.Calls(fn) {
+			cc := call.Common()
+			var dst ssa.Value
+			if bi, ok := cc.Value.(*ssa.Builtin); ok && bi.Name() == "copy" {
+				dst = cc.Args[0]
+			} else if cc.IsInvoke() && cc.Method.Name() == "Read" && len(cc.Args) == 1 {
+				dst = cc.Args[0]
+			} else if f := core.CalleeFunc(call); f != nil {
+				switch {
+				case core.IsMethod(f, core.PkgProto, "Reader", "ReadFull"), core.IsMethod(f, core.PkgProto, "Reader", "Read"):
+					dst = cc.Args[len(cc.Args)-1]
+				case f.Pkg() != nil && f.Pkg().Path() == "io" && (f.Name() == "ReadFull" || f.Name() == "ReadAtLeast"):
+					dst = cc.Args[1]
+				}
+			}
+			if dst == nil {
+				continue
+			}
+			n++
+			if fromGlobal(dst) {
+				bad++
+				c.R.Bad(rule, core.CallKey(fn, call), cfg, p.Pos(call.Pos()), "bytes are read or copied into package-level memory: concurrent receive goroutines of different connections write it at the same time")
+			}
+		}
+	}
+	c.R.Count("fill calls examined", n)
+	c.R.Floor(rule, cfg, n, 20)
+	if bad == 0 {
+		c.R.Ok(rule, "library/fill-destinations", cfg, "", sprintf("%d fill calls, none into package-level memory", n))
+	}
+}
+
+// rulePoolPutOnce (C12.pool-put-once): an object goes back to a sync.Pool once.
+func rulePoolPutOnce(c *Ctx, p *core.Program, rule string) {
+	c.R.Rule(rule, "wherever the library uses a sync.Pool, a value that is Put is not Put again: a function with a deferred Put of a value has no further Put of it, and no Put is reachable from another Put of the same value - a double Put lets two goroutines Get the same object and decode into it concurrently (no sync.Pool is used for decode targets today; the rule is kept alive by a mutant)")
+	cfg := p.Cfg.Name
+	n, bad := 0, 0
+	isPut := func(call ssa.CallInstruction) (ssa.Value, bool) {
+		f := core.CalleeFunc(call)
+		if f == nil || !core.IsMethod(f, "sync", "Pool", "Put") {
+			return nil, false
+		}
+		args := call.Common().Args
+		v := args[len(args)-1]
+		if mi, ok := v.(*ssa.MakeInterface); ok {
+			v = mi.X
+		}
+		// a variable captured by a closure lives in a cell: two loads of the cell are the same value
+		if u, ok := v.(*ssa.UnOp); ok && u.Op == token.MUL {
+			v = u.X
+		}
+		return v, true
+	}
+	for _, fn := range p.Funcs() {
+		if pkgOf(fn) == nil || fn.Blocks == nil {
+			continue
+		}
+		type put struct {
+			in       ssa.Instruction
+			v        ssa.Value
+			deferred bool
+		}
+		var puts []put
+		for _, b := range fn.Blocks {
+			for _, in := range b.Instrs {
+				call, ok := in.(ssa.CallInstruction)
+				if !ok {
+					continue
+				}
+				if v, ok := isPut(call); ok {
+					_, d := in.(*ssa.Defer)
+					puts = append(puts, put{in, v, d})
+				}
+			}
+		}
+		n += len(puts)
+		for i, a := range puts {
+			for j, b := range puts {
+				if i >= j || a.v != b.v {
+					continue
+				}
+				double := a.deferred || b.deferred
+				if !double {
+					w := core.ReachAvoiding(core.PointOf(a.in), func(x ssa.Instruction) bool { return x == b.in }, nil, nil)
+					double = len(w) > 0
+				}
+				if double {
+					bad++
+					c.R.Bad(rule, core.FuncName(fn)+"/double-put", cfg, p.Pos(b.in.Pos()), "the same value is put into the pool twice on one path (a deferred Put plus an explicit one): two later Gets hand the same object to two goroutines")
+				}
+			}
+		}
+	}
+	c.R.Count("sync.Pool.Put calls", n)
+	if bad == 0 {
+		c.R.Ok(rule, "library/sync.Pool", cfg, "", sprintf("%d Put calls, no value put twice", n))
+	}
+}
+
+// ruleSpanContextUsed (C02.span-ctx): the query travels under the span that was started for it.
+func ruleSpanContextUsed(c *Ctx, p *core.Program, rule string) {
+	c.R.Rule(rule, "wherever package ch starts a span (Tracer.Start) the context it returns is used afterwards: sendQuery takes the trace context of the Query packet from the query's context, so a discarded result (`_, span := Start(...)`) sends the caller's span id, or none, instead of the Do span's")
+	cfg := p.Cfg.Name
+	n := 0
+	for _, fn := range p.Funcs() {
+		if pkgOf(fn) == nil || pkgOf(fn).Path() != core.PkgCh || fn.Blocks == nil {
+			continue
+		}
+		for _, call := range core.Calls(fn) {
+			cc := call.Common()
+			if !cc.IsInvoke() || cc.Method.Name() != "Start" || cc.Method.Pkg() == nil || !strings.HasSuffix(cc.Method.Pkg().Path(), "otel/trace") {
+				continue
+			}
+			n++
+			used := false
+			if v, ok := call.(ssa.Value); ok && v.Referrers() != nil {
+				for _, r := range *v.Referrers() {
+					if ex, ok := r.(*ssa.Extract); ok && ex.Index == 0 && ex.Referrers() != nil && len(*ex.Referrers()) > 0 {
+						used = true
+					}
+				}
+			}
+			if used {
+				c.R.Ok(rule, core.CallKey(fn, call), cfg, p.Pos(call.Pos()), "the context carrying the new span is used")
+			} else {
+				c.R.Bad(rule, core.CallKey(fn, call), cfg, p.Pos(call.Pos()), "the context returned by Tracer.Start is discarded: the Query packet does not carry this span")
+			}
+		}
+	}
+	c.R.Floor(rule, cfg, n, 1)
+}
+
+// ruleContentBlindCodecs (C15.content-blind): fixed-width codecs move bytes without looking at them.
+func ruleContentBlindCodecs(c *Ctx, p *core.Program, rule string) {
+	c.R.Rule(rule, "EncodeColumn / WriteColumn / DecodeColumn of the generated fixed-width columns (the Col* types whose files come in an unsafe and a pure-Go variant) call nothing from package bytes or strings: the memory-copy variant cannot look at the values, so a pure-Go variant that cuts, trims or searches them (copy up to the first NUL) emits different bytes for binary rows")
+	cfg := p.Cfg.Name
+	n, bad := 0, 0
+	for _, ct := range columnTypes(p) {
+		for _, mn := range []string{"EncodeColumn", "WriteColumn", "DecodeColumn"} {
+			fn := methodOf(p, ct, mn)
+			if fn == nil || fn.Blocks == nil {
+				continue
+			}
+			file := p.Pos(fn.Pos())
+			if !strings.Contains(file, "_gen.go") {
+				continue
+			}
+			n++
+			for _, g := range append([]*ssa.Function{fn}, fn.AnonFuncs...) {
+				for _, call := range core.Calls(g) {
+					f := core.CalleeFunc(call)
+					if f != nil && f.Pkg() != nil && (f.Pkg().Path() == "bytes" || f.Pkg().Path() == "strings") {
+						bad++
+						c.R.Bad(rule, sprintf("%s.%s", ct.Obj().Name(), mn), cfg, p.Pos(call.Pos()), "a generated fixed-width codec inspects the values with "+f.FullName()+": its output depends on the content, unlike the memory-copy variant of the other build")
+					}
+				}
+			}
+		}
+	}
+	c.R.Count("generated codec methods["+cfg+"]", n)
+	c.R.Floor(rule, cfg, n, 60)
+	if bad == 0 {
+		c.R.Ok(rule, "generated-codecs", cfg, "", sprintf("%d generated codec methods, none inspects the values", n))
+	}
+}
+
+// ruleDictIndependentOfRows (C19.dict-rows): the dictionary of a LowCardinality block is not measured against its rows.
+func ruleDictIndependentOfRows(c *Ctx, p *core.Program, rule string) {
+	c.R.Rule(rule, "in ColLowCardinality.DecodeColumn (and ColLowCardinalityRaw.DecodeColumn) no ordering test (<, <=, >, >=) relates the row count of the column to a size read from the wire (the number of keys is compared for equality, which stays): the server ships the nested type's default value in dictionary slot 0 whether or not a row uses it, so a legal block of distinct values has rows+1 dictionary entries and `index > rows` refuses it")
+	cfg := p.Cfg.Name
+	n := 0
+	for _, tn := range []string{"ColLowCardinality", "ColLowCardinalityRaw"} {
+		fn := p.Method(core.PkgProto, tn, "DecodeColumn")
+		if fn == nil || fn.Blocks == nil || len(fn.Params) < 3 {
+			continue
+		}
+		n++
+		rows := fn.Params[2]
+		bad := false
+		for _, b := range fn.Blocks {
+			ifi, ok := b.Instrs[len(b.Instrs)-1].(*ssa.If)
+			if !ok {
+				continue
+			}
+			bo, ok := ifi.Cond.(*ssa.BinOp)
+			if !ok {
+				continue
+			}
+			isRows := func(v ssa.Value) bool { return stripConv(v) == ssa.Value(rows) }
+			isWire := func(v ssa.Value) bool {
+				return core.DependsOn(v, func(x ssa.Value) bool {
+					if isWireRead(x) {
+						return true
+					}
+					e, ok := x.(*ssa.Extract)
+					return ok && isWireRead(e.Tuple)
+				}, false)
+			}
+			// the number of keys must equal the row count (an equality test, made today); what is refused here is
+			// an ordering between a wire size and the rows
+			if bo.Op == token.EQL || bo.Op == token.NEQ {
+				continue
+			}
+			if (isRows(bo.X) && isWire(bo.Y)) || (isRows(bo.Y) && isWire(bo.X)) {
+				bad = true
+				c.R.Bad(rule, tn+".DecodeColumn", cfg, p.Pos(ifi.Cond.Pos()), "a size read from the wire is compared with the row count: a dictionary larger than the column (default value in slot 0) is refused")
+			}
+		}
+		if !bad {
+			c.R.Ok(rule, tn+".DecodeColumn", cfg, p.Pos(fn.Pos()), "no test relates a wire size to the row count")
+		}
+	}
+	c.R.Floor(rule, cfg, n, 2)
+}
+
+// ruleRangeOnShiftedDay (C20.range-shifted): day converters judge the calendar day, not the instant.
+func ruleRangeOnShiftedDay(c *Ctx, p *core.Program, rule string) {
+	c.R.Rule(rule, "a converter To<D>(time.Time) of package proto that takes the calendar day in the time's own zone (it adds the offset of Time.Zone) makes no range decision on the bare instant: it calls neither Before / After / Compare on its argument nor compares its Unix seconds before the offset is added - a saturation test on the unshifted instant puts the last evening of the range, seen from a zone west of UTC, on the next day")
+	cfg := p.Cfg.Name
+	n := 0
+	for _, fn := range p.Funcs() {
+		if pkgOf(fn) == nil || pkgOf(fn).Path() != core.PkgProto || fn.Signature.Recv() != nil || !strings.HasPrefix(fn.Name(), "To") || fn.Blocks == nil {
+			continue
+		}
+		sig := fn.Signature
+		if sig.Params().Len() < 1 || !core.IsNamed(sig.Params().At(0).Type(), "time", "Time") {
+			continue
+		}
+		if !reachesInProto(fn, func(f *types.Func) bool { return core.IsMethod(f, "time", "Time", "Zone") }, 2) {
+			continue
+		}
+		n++
+		key := "proto." + fn.Name()
+		bad := false
+		for _, call := range core.Calls(fn) {
+			f := core.CalleeFunc(call)
+			if f == nil || !(core.IsMethod(f, "time", "Time", "Before") || core.IsMethod(f, "time", "Time", "After") || core.IsMethod(f, "time", "Time", "Compare")) {
+				continue
+			}
+			bad = true
+			c.R.Bad(rule, key, cfg, p.Pos(call.Pos()), "the converter decides on the bare instant ("+f.Name()+") although the day is taken in the value's own zone: near the ends of the range the two disagree by the zone offset")
+		}
+		if !bad {
+			c.R.Ok(rule, key, cfg, p.Pos(fn.Pos()), "no decision on the unshifted instant")
+		}
+	}
+	c.R.Floor(rule, cfg, n, 2)
+}
+
+// ruleRowsNeedTarget (C07.rows-need-target): a block with rows is never accepted without somewhere to put them.
+func ruleRowsNeedTarget(c *Ctx, p *core.Program, rule string) {
+	c.R.Rule(rule, "in Block.DecodeRawBlock a success exit on the path where the result target is nil (the header-only walk that reads names and types but no column data) is reachable only through an edge that establishes Block.Rows == 0: with rows announced the column data would stay in the stream and be read as the next packet")
+	cfg := p.Cfg.Name
+	fn := p.Method(core.PkgProto, "Block", "DecodeRawBlock")
+	if !c.must(p, "(*proto.Block).DecodeRawBlock", fn != nil) {
+		return
+	}
+	var target *ssa.Parameter
+	for _, prm := range fn.Params {
+		if core.IsNamed(prm.Type(), core.PkgProto, "Result") {
+			target = prm
+		}
+	}
+	if target == nil {
+		c.R.Unk(rule, core.FuncName(fn), cfg, p.Pos(fn.Pos()), "no Result parameter")
+		return
+	}
+	nilTarget := func(cond ssa.Value) int {
+		x, nonNil, ok := nilCmp(cond)
+		if !ok || stripConv(x) != ssa.Value(target) {
+			if ok {
+				if mi, isMI := x.(*ssa.ChangeInterface); isMI && mi.X == ssa.Value(target) {
+					if nonNil {
+						return 0
+					}
+					return 1
+				}
+			}
+			return -1
+		}
+		if nonNil {
+			return 0
+		}
+		return 1
+	}
+	feas := core.FeasibleUnder(fn, nilTarget)
+	rowsZero := core.CondEdges(fn, true, func(cond ssa.Value) (bool, bool) {
+		bo, ok := cond.(*ssa.BinOp)
+		if !ok {
+			return false, false
+		}
+		isRows := func(v ssa.Value) bool { return core.FieldOrigin(v, 0) == "Block.Rows" }
+		zero := func(v ssa.Value) bool { k, ok := intConstOf(v); return ok && k == 0 }
+		switch {
+		case isRows(bo.X) && zero(bo.Y):
+			switch bo.Op {
+			case token.EQL, token.LEQ:
+				return true, true
+			case token.GTR, token.NEQ:
+				return false, true
+			}
+		case zero(bo.X) && isRows(bo.Y):
+			switch bo.Op {
+			case token.EQL, token.GEQ:
+				return true, true
+			case token.LSS, token.NEQ:
+				return false, true
+			}
+		}
+		return false, false
+	})
+	// also the End() special case (no columns, no rows)
+	endEdges := core.CondEdges(fn, true, func(cond ssa.Value) (bool, bool) {
+		_, ok := core.CallTo(cond, func(f *types.Func) bool { return core.IsMethod(f, core.PkgProto, "Block", "End") })
+		return true, ok
+	})
+	pass := append(rowsZero, endEdges...)
+	isPass := func(b *ssa.BasicBlock, i int) bool {
+		for _, e := range pass {
+			if e.B == b && e.Succ == i {
+				return true
+			}
+		}
+		return false
+	}
+	edge := func(b *ssa.BasicBlock, i int) bool { return feas(b, i) && nilErrEdge(b, i) && !isPass(b, i) }
+	w := core.ReachAvoiding(core.Entry(fn), func(in ssa.Instruction) bool {
+		r, ok := in.(*ssa.Return)
+		return ok && defaultSuccess(fn, r)
+	}, nil, edge)
+	if len(w) > 0 {
+		c.R.Bad(rule, core.FuncName(fn), cfg, p.Pos(w[0].At.Pos()), "without a target the block can be accepted although it announces rows: the column data is left in the stream", p.TrailString(w[0])...)
+	} else {
+		c.R.Ok(rule, core.FuncName(fn), cfg, p.Pos(fn.Pos()), "with a nil target every success exit lies behind Rows == 0 (or the end marker)")
+	}
+}
+
+// ruleEnumNameNotSentinel (C19.enum-sentinel): the empty string is a name, not "absent".
+func ruleEnumNameNotSentinel(c *Ctx, p *core.Program, rule string) {
+	c.R.Rule(rule, "in the methods of ColEnum (and the package helpers they call) a name taken from a lookup table (an element of a slice of strings or of a map) is never compared with \"\": '' is a legal enum name (Enum8('' = 0, 'a' = 1) is the usual not-set default), so presence has to come from the comma-ok form of the lookup")
+	cfg := p.Cfg.Name
+	ct := p.NamedType(core.PkgProto, "ColEnum")
+	if !c.must(p, "type proto.ColEnum", ct != nil) {
+		return
+	}
+	n, bad := 0, 0
+	for i := 0; i < ct.NumMethods(); i++ {
+		fn := p.Prog.FuncValue(ct.Method(i))
+		if fn == nil || fn.Blocks == nil {
+			continue
+		}
+		n++
+		reach := map[*ssa.Function]bool{}
+		for g := range core.StaticReach(fn, 2) {
+			reach[g] = true
+			// generic helpers are reached through instantiation wrappers
+			if g.Synthetic != "" {
+				for _, wc := range core.Calls(g) {
+					if o := core.StaticFn(wc); o != nil && o.Blocks != nil {
+						reach[o] = true
+					}
+				}
+			}
+		}
+		for g := range reach {
+			if g.Blocks == nil {
+				continue
+			}
+			if pk := pkgOf(g); pk != nil && pk.Path() != core.PkgProto {
+				continue
+			}
+			for _, b := range g.Blocks {
+				for _, in := range b.Instrs {
+					bo, ok := in.(*ssa.BinOp)
+					if !ok || (bo.Op != token.EQL && bo.Op != token.NEQ) {
+						continue
+					}
+					var other ssa.Value
+					for _, pair := range [][2]ssa.Value{{bo.X, bo.Y}, {bo.Y, bo.X}} {
+						if cst, ok := pair[0].(*ssa.Const); ok && cst.Value != nil && cst.Value.ExactString() == `""` {
+							other = pair[1]
+						}
+					}
+					if other == nil {
+						continue
+					}
+					fromTable := core.DependsOn(other, func(v ssa.Value) bool {
+						switch x := v.(type) {
+						case *ssa.IndexAddr:
+							_, isSl := x.X.Type().Underlying().(*types.Slice)
+							return isSl
+						case *ssa.Lookup:
+							_, isMap := x.X.Type().Underlying().(*types.Map)
+							return isMap
+						}
+						return false
+					}, false)
+					if fromTable {
+						bad++
+						c.R.Bad(rule, core.FuncName(g)+"/empty-name-test", cfg, p.Pos(bo.Pos()), "a name looked up in the column's table is compared with \"\" to detect absence: the element named '' is then reported as an unknown enum value")
+					}
+				}
+			}
+		}
+	}
+	c.R.Floor(rule, cfg, n, 5)
+	if bad == 0 {
+		c.R.Ok(rule, "ColEnum", cfg, "", sprintf("%d methods, no table entry compared with the empty string", n))
+	}
+}
+
+// ruleBlockEncodePath (C05.block-path): every block the client sends goes through the one function that frames it.
+func ruleBlockEncodePath(c *Ctx, p *core.Program, rule string) {
+	c.R.Rule(rule, "on the client side of package ch, proto.Block.WriteBlock / EncodeBlock / EncodeRawBlock are called only from Client.encodeBlock (or from functions only encodeBlock calls): that is the one place that chooses between the plain vectored path and encode-then-compress according to the negotiated compression - a block written by a second path on a compressed connection goes out unframed and the peer reads its first bytes as a frame header")
+	cfg := p.Cfg.Name
+	eb := p.Method(core.PkgCh, "Client", "encodeBlock")
+	if !c.must(p, "(*ch.Client).encodeBlock", eb != nil) {
+		return
+	}
+	callers := map[*ssa.Function][]*ssa.Function{}
+	var fns []*ssa.Function
+	for _, fn := range p.Funcs() {
+		if pkgOf(fn) == nil || pkgOf(fn).Path() != core.PkgCh || fn.Blocks == nil || isServerSide(fn) {
+			continue
+		}
+		fns = append(fns, fn)
+		for _, call := range core.Calls(fn) {
+			if g := core.StaticFn(call); g != nil {
+				callers[g] = append(callers[g], fn)
+			}
+		}
+	}
+	owned := func(fn *ssa.Function) bool {
+		if fn == eb || fn.Parent() == eb {
+			return true
+		}
+		cs := callers[fn]
+		if len(cs) == 0 {
+			return false
+		}
+		for _, cfn := range cs {
+			if cfn != eb && cfn.Parent() != eb {
+				return false
+			}
+		}
+		return true
+	}
+	n, bad := 0, 0
+	for _, fn := range fns {
+		for _, call := range core.Calls(fn) {
+			f := core.CalleeFunc(call)
+			if f == nil || !(core.IsMethod(f, core.PkgProto, "Block", "WriteBlock") || core.IsMethod(f, core.PkgProto, "Block", "EncodeBlock") || core.IsMethod(f, core.PkgProto, "Block", "EncodeRawBlock")) {
+				continue
+			}
+			n++
+			if owned(fn) {
+				c.R.Ok(rule, core.CallKey(fn, call), cfg, p.Pos(call.Pos()), "inside encodeBlock")
+			} else {
+				bad++
+				c.R.Bad(rule, core.CallKey(fn, call), cfg, p.Pos(call.Pos()), "a block is encoded outside Client.encodeBlock: this path does not look at the negotiated compression, so on a compressed connection the block goes out without a frame")
+			}
+		}
+	}
+	c.R.Floor(rule, cfg, n, 2)
+	_ = bad
 }
